@@ -397,7 +397,7 @@ Proof. induction l; cbn; auto. Qed.
 Lemma step_inv s e : Inv s -> Inv (step current s e).
 Proof.
   intro I. unfold step. rewrite (i_nopanic _ I).
-  destruct e as [h n|h|h n|blk nonce newtx| |rs| |fb|w| | |h n|b c newtx].
+  destruct e as [h n|h|h n|blk nonce newtx| |rs| |fb|w| | |h n|b c newtx|gw].
   - (* Sent *)
     dI I. constructor; projs; auto.
     intros h0 n0 [Heq|Hin].
@@ -488,6 +488,7 @@ Proof.
       * apply in_or_app. auto.
       * destruct i_chk0 as (H1 & H2 & H3). split; [apply in_or_app; auto|auto].
     + discriminate.
+  - exact I.
 Qed.
 
 Theorem inv_init : Inv init.
@@ -594,7 +595,7 @@ Lemma src_step evs s e : Inv s -> Src evs s -> Src (evs ++ [e]) (step current s 
 Proof.
   intros I S. unfold step. rewrite (i_nopanic _ I).
   assert (W : forall s', frame s s' -> Src (evs ++ [e]) s') by (intros; eapply src_weaken; eauto).
-  destruct e as [h n|h|h n|blk nonce newtx| |rs| |fb|w| | |h n|b c newtx].
+  destruct e as [h n|h|h n|blk nonce newtx| |rs| |fb|w| | |h n|b c newtx|gw].
   - destruct (src_weaken evs (Sent h n) s s S (frame_refl s)) as [A B C D E].
     constructor; cbn [closed confs answers chk sent]; auto.
     intros h0 H. apply in_app_or in H. destruct H as [H|[<-|[]]]; [exact (E h0 H)|].
@@ -655,6 +656,7 @@ Proof.
     constructor; cbn [closed confs answers chk sent]; auto.
     intros c0 Hc. apply in_app_or in Hc. destruct Hc as [Hc|[<-|[]]]; [exact (B c0 Hc)|].
     exists b, newtx. right. apply in_or_app. right. left. reflexivity.
+  - apply W, frame_refl.
 Qed.
 
 Lemma run_snoc v evs e : run v (evs ++ [e]) = step v (run v evs) e.
@@ -829,7 +831,7 @@ Proof.
   { intros. unfold notify. cbv zeta. cbn [set_wait wl_exited]. apply Ff. }
   assert (Fw : forall t w h n, wl_exited (watch_tx current t w h n) = wl_exited t).
   { intros. unfold watch_tx. cbv zeta. cbn [drained]. destruct (fix_drain current && drained t); [rewrite Fs|]; reflexivity. }
-  destruct e as [h n|h|h n|blk nonce newtx| |rs| |fb|w| | |h n|b c newtx].
+  destruct e as [h n|h|h n|blk nonce newtx| |rs| |fb|w| | |h n|b c newtx|gw].
   - exact Hex.
   - cbn [fresh]. cbv zeta. cbn [pending]. destruct (lookup h (pending s)); [rewrite Fw|]; exact Hex.
   - cbn [fresh]. cbv zeta. rewrite Fw. exact Hex.
@@ -847,6 +849,7 @@ Proof.
   - rewrite Hex. rewrite andb_false_r. exact Hex.
   - cbn [fresh]. cbv zeta. rewrite Fw. exact Hex.
   - rewrite Hex. exact Hex.
+  - exact Hex.
 Qed.
 
 Theorem drained_forever : forall evs evs', drained (run current evs) = true ->
@@ -996,7 +999,7 @@ Proof. reflexivity. Qed.
 Lemma chk_adv s c snap q e : Inv s -> chk s = InFlight c snap q -> chk (step current s e) = adv c snap q e.
 Proof.
   intros I Hk. unfold step. rewrite (i_nopanic _ I).
-  destruct e as [h n|h|h n|blk nonce newtx| |rs| |fb|w| | |h n|b c1 newtx]; cbn [adv].
+  destruct e as [h n|h|h n|blk nonce newtx| |rs| |fb|w| | |h n|b c1 newtx|gw]; cbn [adv].
   - exact Hk.
   - cbn [fresh]. cbv zeta. cbn [pending]. destruct (lookup h (pending s)).
     + match goal with |- chk (watch_tx ?v ?t ?w ?h ?n) = _ => destruct (frame_watch v t w h n) as (_ & _ & _ & F & _); rewrite F end.
@@ -1022,6 +1025,7 @@ Proof.
     match goal with |- chk (watch_tx ?v ?t ?w ?h ?n) = _ => destruct (frame_watch v t w h n) as (_ & _ & _ & F & _); rewrite F end.
     exact Hk.
   - destruct (wl_exited s); [exact Hk|]. destruct ((b <=? last_block s) && negb newtx); exact Hk.
+  - exact Hk.
 Qed.
 
 (* ---- outcomes, once delivered, stay -------------------------------------------------------- *)
@@ -1053,7 +1057,7 @@ Qed.
 Lemma dext_step s e : dext s (step current s e).
 Proof.
   unfold step. destruct (panicked s); [apply dext_same; reflexivity|].
-  destruct e as [h n|h|h n|blk nonce newtx| |rs| |fb|w| | |h n|b c1 newtx].
+  destruct e as [h n|h|h n|blk nonce newtx| |rs| |fb|w| | |h n|b c1 newtx|gw].
   - apply dext_same; reflexivity.
   - cbn [fresh]. cbv zeta. cbn [pending]. destruct (lookup h (pending s)).
     + eapply dext_trans; [|apply dext_watch]. apply dext_same; reflexivity.
@@ -1076,6 +1080,7 @@ Proof.
   - cbn [fresh]. cbv zeta. eapply dext_trans; [|apply dext_watch]. apply dext_same; reflexivity.
   - destruct (wl_exited s); [apply dext_same; reflexivity|].
     destruct ((b <=? last_block s) && negb newtx); apply dext_same; reflexivity.
+  - apply dext_same; reflexivity.
 Qed.
 
 Lemma dext_run_from : forall evs s, dext s (run_from current s evs).
@@ -1129,7 +1134,7 @@ Lemma wait_step s c snap q e n h w : Inv s -> chk s = InFlight c snap q -> In (n
   In (n, h, w) (wait (step current s e)) \/ (e = Drain /\ In (w, OClosed) (delivered (step current s e))).
 Proof.
   intros I Hk Hin Hh. unfold step. rewrite (i_nopanic _ I).
-  destruct e as [h0 n0|h0|h0 n0|blk nonce newtx| |rs| |fb|w0| | |h0 n0|b c1 newtx].
+  destruct e as [h0 n0|h0|h0 n0|blk nonce newtx| |rs| |fb|w0| | |h0 n0|b c1 newtx|gw].
   - left. exact Hin.
   - left. cbn [fresh]. cbv zeta. cbn [pending]. destruct (lookup h0 (pending s)); [apply wait_watch|]; exact Hin.
   - left. cbn [fresh]. cbv zeta. apply wait_watch. exact Hin.
@@ -1153,6 +1158,7 @@ Proof.
     + exact (i_nodupw _ I).
   - left. cbn [fresh]. cbv zeta. apply wait_watch. exact Hin.
   - left. destruct (wl_exited s); [exact Hin|]. destruct ((b <=? last_block s) && negb newtx); exact Hin.
+  - left. exact Hin.
 Qed.
 
 Lemma in_delivered_run_from evs s w o : In (w, o) (delivered s) -> In (w, o) (delivered (run_from current s evs)).
@@ -1351,7 +1357,7 @@ Proof.
   assert (Hlt : forall x, In x (closedch s) -> x < next s) by exact (i_ltc _ I).
   assert (Hcl : drained s = true -> closed s = true).
   { intro Hd. apply (i_exited _ I). exact (proj2 (i_drained _ I Hd)). }
-  destruct e as [h n|h|h n|blk nonce newtx| |rs| |fb|w0| | |h n|b c1 newtx].
+  destruct e as [h n|h|h n|blk nonce newtx| |rs| |fb|w0| | |h n|b c1 newtx|gw].
   - contradiction.
   - cbn [fresh] in H. cbv zeta in H. cbn [pending] in H. destruct (lookup h (pending s)) as [n|]; [|contradiction].
     match type of H with In _ (delivered (watch_tx _ ?t ?w1 ?h1 ?n1)) => destruct (watch_new t w1 h1 n1 w o Hlt H Hn) as (Hd & -> & ->) end. cbn [drained] in Hd.
@@ -1401,6 +1407,7 @@ Proof.
   - cbn [fresh] in H. cbv zeta in H. match type of H with In _ (delivered (watch_tx _ ?t ?w1 ?h1 ?n1)) => destruct (watch_new t w1 h1 n1 w o Hlt H Hn) as (Hd & -> & ->) end. cbn [drained] in Hd.
     right. repeat split; auto. exists h, n. auto.
   - destruct (wl_exited s); [contradiction|]. destruct ((b <=? last_block s) && negb newtx); contradiction.
+  - contradiction.
 Qed.
 
 Lemma poll_src_app evs e c : poll_src evs c -> poll_src (evs ++ [e]) c.
@@ -1424,7 +1431,7 @@ Lemma chk_not_inflight s e : Inv s -> (chk s = Idle \/ exists c, chk s = Handed 
   (exists c, chk s = Handed c /\ e = CheckBegin /\ chk (step current s e) = finish c (older c (wait s)) []).
 Proof.
   intros I Hk. unfold step. rewrite (i_nopanic _ I).
-  destruct e as [h n|h|h n|blk nonce newtx| |rs| |fb|w| | |h n|b c1 newtx].
+  destruct e as [h n|h|h n|blk nonce newtx| |rs| |fb|w| | |h n|b c1 newtx|gw].
   - left. reflexivity.
   - left. cbn [fresh]. cbv zeta. cbn [pending]. destruct (lookup h (pending s)); [fw|]; reflexivity.
   - left. cbn [fresh]. cbv zeta. fw. reflexivity.
@@ -1447,6 +1454,7 @@ Proof.
     destruct (frame_fold OClosed (map waiter_of (wait s)) s) as (_ & _ & _ & F & _). exact F.
   - left. cbn [fresh]. cbv zeta. fw. reflexivity.
   - left. destruct (wl_exited s); [reflexivity|]. destruct ((b <=? last_block s) && negb newtx); reflexivity.
+  - left. reflexivity.
 Qed.
 
 Lemma take_batch_in_snap : forall rs snap snap' q, take_batch snap rs = (snap', q) ->
@@ -1638,7 +1646,7 @@ Proof.
   intros I J. pose proof (dext_incl _ _ (dext_step s e)) as Hd. revert Hd. unfold step. rewrite (i_nopanic _ I).
   assert (Same : forall s', cframe s s' -> incl (delivered s) (delivered s') -> Inv2 s').
   { intros s' (A1 & A2 & A3 & A4 & A5 & A6) Hd. apply (inv2_mono s s' J A1 A2 A3); [rewrite A4; apply incl_refl|exact Hd]. }
-  destruct e as [h n|h|h n|blk nonce newtx| |rs| |fb|w| | |h n|b c1 newtx]; intro Hd.
+  destruct e as [h n|h|h n|blk nonce newtx| |rs| |fb|w| | |h n|b c1 newtx|gw]; intro Hd.
   - (* Sent *) destruct J as [A B]. constructor; cbn [internal watchers sent pending delivered].
     + exact A.
     + intros h0 H1 H2. cbn [lookup] in H2. destruct (h =? h0) eqn:E; [discriminate|].
@@ -1693,6 +1701,7 @@ Proof.
       exists w0, n0, st. split; [apply in_or_app; auto|apply Hd; exact Hy].
   - destruct (wl_exited s); [exact J|]. destruct ((b <=? last_block s) && negb newtx); [exact J|].
     apply Same; [repeat split|exact Hd].
+  - exact J.
 Qed.
 
 Theorem inv2_run : forall evs, Inv2 (run current evs).
@@ -1707,7 +1716,7 @@ Lemma refused_step s e w : Inv s -> In w (refused (step current s e)) -> ~ In w 
   exists h, e = Watch h /\ w = next s /\ lookup h (pending s) = None.
 Proof.
   intros I H Hn. unfold step in H. rewrite (i_nopanic _ I) in H.
-  destruct e as [h n|h|h n|blk nonce newtx| |rs| |fb|w0| | |h n|b c1 newtx].
+  destruct e as [h n|h|h n|blk nonce newtx| |rs| |fb|w0| | |h n|b c1 newtx|gw].
   - contradiction.
   - cbn [fresh] in H. cbv zeta in H. cbn [pending] in H. destruct (lookup h (pending s)) as [n|] eqn:El.
     + match type of H with In _ (refused (watch_tx ?v ?t ?w1 ?h1 ?n1)) => destruct (watch_fields v t w1 h1 n1) as (_ & _ & _ & A4 & _); rewrite A4 in H end.
@@ -1733,6 +1742,7 @@ Proof.
     match type of H with In _ (refused (watch_tx ?v ?t ?w1 ?h1 ?n1)) => destruct (watch_fields v t w1 h1 n1) as (_ & _ & _ & A4 & _); rewrite A4 in H end.
     contradiction.
   - destruct (wl_exited s); [contradiction|]. destruct ((b <=? last_block s) && negb newtx); contradiction.
+  - contradiction.
 Qed.
 
 Lemma refused_lt : forall evs w, In w (refused (run current evs)) -> w < next (run current evs).
@@ -1742,7 +1752,7 @@ Proof.
   - specialize (IH w Ho). rewrite run_snoc.
     assert (Mono : next (run current evs) <= next (step current (run current evs) e)).
     { set (s := run current evs). unfold step. destruct (panicked s); [lia|].
-      destruct e as [h n|h|h n|blk nonce newtx| |rs| |fb|w0| | |h n|b c1 newtx]; cbn [next]; try lia.
+      destruct e as [h n|h|h n|blk nonce newtx| |rs| |fb|w0| | |h n|b c1 newtx|gw]; cbn [next]; try lia.
       - cbn [fresh]. cbv zeta. cbn [pending]. destruct (lookup h (pending s)).
         + match goal with |- _ <= next (watch_tx ?v ?t ?w1 ?h1 ?n1) => destruct (watch_fields v t w1 h1 n1) as (_ & _ & _ & _ & A5 & _); rewrite A5 end. cbn [next set_pending set_internal set_flagged set_chk set_wait]. lia.
         + cbn [next set_pending set_internal set_flagged set_chk set_wait]. lia.
@@ -1782,7 +1792,7 @@ Proof.
   assert (Keep : forall x, In x (watchers (run current (evs ++ [e]))) -> In x (watchers (run current evs)) \/ fst (fst x) = next (run current evs)).
   { intros x Hx. rewrite run_snoc in Hx. pose proof (inv_run evs) as I. set (s := run current evs) in *.
     unfold step in Hx. rewrite (i_nopanic _ I) in Hx.
-    destruct e as [h n|h|h n|blk nonce newtx| |rs| |fb|w0| | |h n|b c1 newtx]; try (left; exact Hx).
+    destruct e as [h n|h|h n|blk nonce newtx| |rs| |fb|w0| | |h n|b c1 newtx|gw]; try (left; exact Hx).
     - cbn [fresh] in Hx. cbv zeta in Hx. cbn [pending] in Hx. destruct (lookup h (pending s)) as [n|]; [|left; exact Hx].
       match type of Hx with In _ (watchers (watch_tx ?v ?t ?w1 ?h1 ?n1)) => destruct (watch_fields v t w1 h1 n1) as (_ & _ & _ & _ & _ & A6); rewrite A6 in Hx end.
       apply in_app_or in Hx. destruct Hx as [Hx|[<-|[]]]; auto.
@@ -1893,7 +1903,7 @@ Lemma pending_hashes_step s e h : In h (pending_hashes (step current s e)) ->
   In h (pending_hashes s) \/ exists n, e = Sent h n.
 Proof.
   unfold step. destruct (panicked s); [auto|].
-  destruct e as [h0 n|h0|h0 n|blk nonce newtx| |rs| |fb|w| | |h0 n|b c1 newtx]; intro H.
+  destruct e as [h0 n|h0|h0 n|blk nonce newtx| |rs| |fb|w| | |h0 n|b c1 newtx|gw]; intro H.
   - destruct (N.eq_dec h h0) as [->|Hne]; [right; eauto|left].
     unfold pending_hashes in *. cbn [pending flagged] in H. apply filter_In in H. destruct H as [H1 H2].
     apply filter_In. rewrite memN_filter_other in H2 by exact Hne. split; [|exact H2].
@@ -1924,6 +1934,7 @@ Proof.
     destruct (pframe_fold OClosed (map waiter_of (wait s)) s) as [A1 A2]. split; cbn [pending flagged]; assumption.
   - left. cbn [fresh] in H. cbv zeta in H. eapply ph_frame; [|exact H]. eapply pframe_trans; [|apply pframe_watch]. split; reflexivity.
   - left. destruct (wl_exited s); [exact H|]. destruct ((b <=? last_block s) && negb newtx); exact H.
+  - left. exact H.
 Qed.
 
 Theorem pending_resolved_stays : forall evs' s h, ~ In h (pending_hashes s) ->
@@ -1944,3 +1955,12 @@ Theorem truthful_cancel_state : forall evs w, In (w, OCancelled) (delivered (run
   exists h n c r, In (w, h, n) (watchers (run current evs)) /\ In (c, h, r) (answers (run current evs)) /\
                   no_receipt r = true /\ n < c /\ In c (confs (run current evs)).
 Proof. intros evs w H. exact (i_cancel _ (inv_run evs) _ H). Qed.
+
+(* a caller that stops waiting is no action on the monitor: every other waiter -- and its own
+   channel -- is exactly where it was *)
+Theorem giveup_changes_nothing : forall s w, step current s (GiveUp w) = s.
+Proof. intros s w. unfold step. destruct (panicked s); reflexivity. Qed.
+Theorem giveup_transparent : forall evs w evs', run current (evs ++ GiveUp w :: evs') = run current (evs ++ evs').
+Proof.
+  intros evs w evs'. unfold run. rewrite !fold_left_app. cbn [fold_left]. rewrite giveup_changes_nothing. reflexivity.
+Qed.
